@@ -215,10 +215,11 @@ func checkC10(c any, r *Rec) error {
 }
 
 type c10Gen struct {
-	t     *rapid.T
-	known []string // block names defined by ancestors
-	fresh int
-	used  map[string]bool // names used in the template being generated
+	t        *rapid.T
+	known    []string // block names defined by ancestors
+	fresh    int
+	used     map[string]bool // names used in the template being generated
+	bigLoops int
 }
 
 func (g *c10Gen) body(lvl, depth int, inBlock bool) []c10Item {
@@ -255,7 +256,13 @@ func (g *c10Gen) body(lvl, depth int, inBlock bool) []c10Item {
 			}
 		case "for":
 			if depth > 0 {
-				out = append(out, c10Item{Kind: "for", Times: drawInt(g.t, 0, 3, "times"), Body: g.body(lvl, depth-1, inBlock)})
+				times := drawInt(g.t, 0, 3, "times")
+				if g.bigLoops < 1 && drawInt(g.t, 0, 7, "bigloop") == 0 {
+					// a block executed more than a thousand times in one render (once per case: cost)
+					times = 1100
+					g.bigLoops++
+				}
+				out = append(out, c10Item{Kind: "for", Times: times, Body: g.body(lvl, depth-1, inBlock)})
 			}
 		}
 	}
@@ -266,11 +273,20 @@ func genC10(t *rapid.T) *c10Case {
 	g := &c10Gen{t: t}
 	n := drawInt(t, 1, 5, "levels")
 	cs := &c10Case{}
-	dirs := []string{"/", "/a/", "/a/b/", "/c/"}
+	dirs := []string{"/", "/a/", "/a/b/", "/c/", "/c/d/", "/a/e/"}
+	// often the same base name in different directories (a name may end with the name it extends)
+	sameBase := drawBool(t, "samebase")
+	for i := len(dirs) - 1; i > 0; i-- {
+		j := drawInt(t, 0, i, "dirperm")
+		dirs[i], dirs[j] = dirs[j], dirs[i]
+	}
 	prevFile := ""
 	for lvl := 0; lvl < n; lvl++ {
 		g.used = map[string]bool{}
-		tp := c10Tpl{File: pick(t, "dir", dirs) + fmt.Sprintf("l%d.tpl", lvl)}
+		tp := c10Tpl{File: dirs[lvl] + fmt.Sprintf("l%d.tpl", lvl)}
+		if sameBase {
+			tp.File = dirs[lvl] + "t.tpl"
+		}
 		tp.Top = g.body(lvl, 3, false)
 		if lvl > 0 {
 			tp.Ref = prevFile // rooted
